@@ -334,7 +334,7 @@ def extra_meta(which, nq, nt):
 
 PROPS = {
     'C01': dict(
-        theorems=[('DeriveExModel.Props.Tables', ['DX.isMatch_table_model', 'DX.isMatch_table_doc', 'DX.isMatch_table_complete']), (CMP + 'C01', ['DX.eq_follows_doc', 'DX.partial_cmp_follows_doc', 'DX.cmp_follows_doc',
+        theorems=[('DeriveExModel.Props.Tables', ['DX.isMatch_table_model', 'DX.isMatch_table_doc', 'DX.isMatch_table_complete']), ('DeriveExModel.Props.DocTables', ['DX.doc_attr_trait_table', 'DX.doc_attr_trait_complete', 'DX.doc_affects_table']), (CMP + 'C01', ['DX.eq_follows_doc', 'DX.partial_cmp_follows_doc', 'DX.cmp_follows_doc',
                                  'DX.body_independent_of_entry'])],
         l1=[('cmp1', 'all', 'all'), ('cmp1all', 20000, 'all'), ('cmpN', 4000, 200000), ('cmpWild', 1000, 50000)],
         labels=r':(PartialEq|PartialOrd|Ord)$',
@@ -371,7 +371,7 @@ PROPS = {
     ),
     'C04': dict(
         explanation="theorems: for every derivable trait on structs and enums the builder's flag-threading equals Plan.whereClause (reached levels contribute verbatim, continue iff absent or `..`, a stop is local, the declared where-clause is retained; comparison helpers most specific first; Default walks the default variant only). L1: the `bounds` family assigns every bound(..) shape to every level.",
-        theorems=[(CMP + 'C04Enum', ['DX.debug_enum_where', 'DX.default_enum_where', 'DX.default_enum_where_value', 'DX.debugExpr_where', 'DX.deref_where']),
+        theorems=[('DeriveExModel.Props.DocTables', ['DX.doc_level_table', 'DX.doc_level_complete']), (CMP + 'C04Enum', ['DX.debug_enum_where', 'DX.default_enum_where', 'DX.default_enum_where_value', 'DX.debugExpr_where', 'DX.deref_where']),
                   (CMP + 'C04', ['DX.clone_struct_where', 'DX.clone_enum_where', 'DX.copy_enum_where', 'DX.copy_struct_where',
                                  'DX.ops_where', 'DX.default_struct_where', 'DX.default_struct_where_value', 'DX.debug_struct_where', 'DX.selBounds_walk', 'DX.cmp_struct_where', 'DX.cmp_enum_where', 
                                  'DX.declared_where_retained', 'DX.empty_bound_stops', 'DX.absent_level_skipped',
@@ -388,7 +388,7 @@ PROPS = {
         level_text='Lean theorems: the flag-threading of every builder equals the documented walk over chains of levels (reached levels contribute verbatim; continue iff absent or `..`; stops are local; declared where-clause retained), with the per-trait level tables proved for every derivable trait on structs and enums (Clone, Copy, operators, Default, Debug, Deref, comparison traits with the helper-attribute level most specific first); L1 compares every where-clause token for token on assignments of all bound(..) shapes to all levels',
     ),
     'C05': dict(
-        theorems=[('DeriveExModel.Props.Tables', ['DX.isMatch_table_model', 'DX.isMatch_table_doc', 'DX.isMatch_table_complete']), (CMP + 'C05', ['DX.field_error_iff_misuse', 'DX.trait_error_iff_misuse', 'DX.valid_use_accepted',
+        theorems=[('DeriveExModel.Props.DocTables', ['DX.doc_arg_place_table', 'DX.doc_arg_place_complete']), ('DeriveExModel.Props.Tables', ['DX.isMatch_table_model', 'DX.isMatch_table_doc', 'DX.isMatch_table_complete']), ('DeriveExModel.Props.DocTables', ['DX.doc_attr_trait_table', 'DX.doc_attr_trait_complete', 'DX.doc_affects_table']), (CMP + 'C05', ['DX.field_error_iff_misuse', 'DX.trait_error_iff_misuse', 'DX.valid_use_accepted',
                                  'DX.misplaced_iff', 'DX.struct_entries_isolated'])],
         l1=[('cmp1', 'all', 'all'), ('cmp1all', 20000, 'all'), ('cmpWild', 4000, 100000), ('cmpN', 2000, 50000)],
         labels=r':(PartialEq|PartialOrd|Ord|Eq|Hash)$|^err$',
@@ -495,7 +495,7 @@ PROPS.update({
     ),
     'C14': dict(
         explanation='theorems: the re-emitted item is the input minus exactly the attributes the documentation assigns to the derived traits, on success, on a per-trait error and when the argument list itself is rejected; impl items and unsupported items verbatim (reemit_*, foreign_kept, underived_helper_kept). L1 item segment on families rich in foreign and helper-like attributes; L2 through the real entry points.',
-        theorems=[('DeriveExModel.Props.Tables', ['DX.isMatch_table_model', 'DX.isMatch_table_doc', 'DX.isMatch_table_complete']), (CMP + 'C14', ['DX.isMatch_extend', 'DX.reemit_exact_struct', 'DX.reemit_exact_enum',
+        theorems=[('DeriveExModel.Props.Tables', ['DX.isMatch_table_model', 'DX.isMatch_table_doc', 'DX.isMatch_table_complete']), ('DeriveExModel.Props.DocTables', ['DX.doc_attr_trait_table', 'DX.doc_attr_trait_complete', 'DX.doc_affects_table']), (CMP + 'C14', ['DX.isMatch_extend', 'DX.reemit_exact_struct', 'DX.reemit_exact_enum',
                                  'DX.reemit_on_arg_error_struct', 'DX.reemit_on_arg_error_enum', 'DX.reemit_impl',
                                  'DX.reemit_other', 'DX.item_always_emitted', 'DX.foreign_kept', 'DX.strip_is_sublist',
                                  'DX.underived_helper_kept'])],
@@ -508,7 +508,7 @@ PROPS.update({
     ),
     'C15': dict(
         explanation='theorems: the impls are the same through either entry point, for merged and split lists, in list order (entry_equiv_*, split_equiv, order_preserved). Metamorphic real-vs-real comparisons need no model: attribute macro vs #[derive(Ex)], merged vs split, one trait alone vs with the others.',
-        theorems=[('DeriveExModel.Props.Tables', ['DX.isMatch_table_model', 'DX.isMatch_table_doc', 'DX.isMatch_table_complete']), (CMP + 'C15', ['DX.entry_equiv_struct', 'DX.entry_equiv_enum', 'DX.entry_equiv_segments_struct',
+        theorems=[('DeriveExModel.Props.Tables', ['DX.isMatch_table_model', 'DX.isMatch_table_doc', 'DX.isMatch_table_complete']), ('DeriveExModel.Props.DocTables', ['DX.doc_attr_trait_table', 'DX.doc_attr_trait_complete', 'DX.doc_affects_table']), (CMP + 'C15', ['DX.entry_equiv_struct', 'DX.entry_equiv_enum', 'DX.entry_equiv_segments_struct',
                                  'DX.entry_equiv_segments_enum', 'DX.split_equiv', 'DX.order_preserved', 'DX.fromAttrs_congr'])],
         l1=[('all', 4000, 150000), ('cmp1all', 20000, 'all'), ('bounds', 2000, 50000)],
         labels=r'^e\d+:|^err$',
